@@ -10,7 +10,7 @@ wt=/tmp/wt-try-$$; scratch=/tmp/verif-try-$$
 git -C /repo worktree add --detach $wt HEAD >/dev/null 2>&1 || { echo "cannot create worktree"; exit 9; }
 trap 'git -C /repo worktree remove --force $wt >/dev/null 2>&1; rm -rf $scratch' EXIT
 git -C $wt apply "$patch" || { echo "patch does not apply"; exit 9; }
-VERIF_REPO=$wt VERIF_WORKROOT=$scratch/work VERIF_EVIDENCE_DIR=$scratch/evidence ./run.sh "$id" "$tier" > $scratch.out 2>&1; rc=$?
+VERIF_REPO=$wt VERIF_WORKROOT=$scratch/work VERIF_EVIDENCE_DIR=$scratch/evidence VERIF_REPLAYS_DIR=$scratch/replays ./run.sh "$id" "$tier" > $scratch.out 2>&1; rc=$?
 grep -E "^(VIOLATION|violation|INCONCLUSIVE|C[0-9]+ tier)" $scratch.out | cut -c1-400
 rm -f $scratch.out
 echo "exit=$rc"
